@@ -37,7 +37,7 @@ RULE = ('family = one cache directory, a source of 1-6 examples and a child-writ
         'N-th store). Reference model: directory contents index -> value, handles and '
         'sharing groups, upstream call counters. Non-trivial = a kill, fault, reopen or '
         'release happened; distinct = distinct (plan / history, kill point).')
-PROBES = ['killed_inside_cache_set', 'killed_right_after_store', 'acked_index_served_after_kill',
+PROBES = ['examples_stored_as_separate_files', 'killed_inside_cache_set', 'killed_right_after_store', 'acked_index_served_after_kill',
           'inflight_index_after_kill', 'reuse_false_refused', 'copy_outlived_original',
           'directory_removed_on_last_release', 'directory_kept_on_release',
           'disk_full_raised_on_miss', 'disk_full_hit_still_served', 'store_error_propagated']
@@ -92,7 +92,21 @@ def _faulty_setitem(self, key, value):
     return _orig_setitem(self, key, value)
 
 
+BIG = [False]
+
+
+class BigFn(W.MapFn):
+    """examples above diskcache's 32 kB threshold are stored as separate files"""
+
+    def __call__(self, x):
+        ctx, ids = W._enter(self.stage, x)
+        ctx.event('ret', self.stage, ids)
+        return {'f': self.stage, 'x': x, 'blob': 'b%d' % ids[0] * 9000}
+
+
 def value_of(i):
+    if BIG[0]:
+        return {'f': 'u0', 'x': {'src': i}, 'blob': 'b%d' % i * 9000}
     return {'f': 'u0', 'x': {'src': i}}
 
 
@@ -101,7 +115,7 @@ def make_upstream(n, kind):
         src = lazy_dataset.new({'k%d' % i: {'src': i} for i in range(n)})
     else:
         src = lazy_dataset.new([{'src': i} for i in range(n)])
-    return src.map(W.MapFn('u0'))
+    return src.map(BigFn('u0') if BIG[0] else W.MapFn('u0'))
 
 
 def do_access(ds, n, acc):
@@ -229,6 +243,8 @@ def run_child(cache_dir, n, kind, accesses, kill_at):
 def gen(rng, tier, index):
     n = rng.randrange(1, 7)
     kind = rng.choice(['list', 'dict'])
+    big = rng.random() < 0.2
+    BIG[0] = big
     cases = []
     # (a) crash-point family
     accesses = [gen_access(rng, n, kind) for _ in range(rng.randrange(1, 6))]
@@ -245,12 +261,13 @@ def gen(rng, tier, index):
     kills = sorted(set(after_ack) | {rng.randrange(1, total + 1) for _ in range(6)})
     for k in kills:
         cases.append({'mode': 'crash', 'n': n, 'kind': kind, 'pre': pre,
-                      'accesses': accesses, 'kill': k,
+                      'accesses': accesses, 'kill': k, 'big': big,
                       'parent_open': rng.random() < 0.3})
     # (b) lifecycle histories
     for j in range(3):
-        cases.append({'mode': 'life', 'n': n, 'kind': kind,
+        cases.append({'mode': 'life', 'n': n, 'kind': kind, 'big': big,
                       'ops': gen_life_ops(rng, n, kind)})
+    BIG[0] = False
     return cases
 
 
@@ -578,6 +595,14 @@ def run_life(case):
 
 
 def run(case):
+    BIG[0] = bool(case.get('big'))
+    try:
+        return _run(case)
+    finally:
+        BIG[0] = False
+
+
+def _run(case):
     with warnings.catch_warnings():
         warnings.simplefilter('ignore')
         if case['mode'] == 'crash':
@@ -587,6 +612,9 @@ def run(case):
             m, extra = run_life(case)
             nontrivial = bool(m.fired)
     m.fired['mode_' + case['mode']] += 1
+    if case.get('big'):
+        m.fired['file_backed_examples'] += 1
+        m.probes['examples_stored_as_separate_files'] = 1
     return hist.outcome(case, nontrivial=nontrivial, key=hist.hkey(case),
                         violations=m.violations, fired=dict(m.fired), probes=m.probes,
                         stats={}, sample={'case': case, 'observed': extra},
